@@ -189,7 +189,12 @@ func genC12(cfg Config, ws *WorldSet, i int) C12Case {
 	outArg := ""
 	if r.Chance(1, 8) {
 		// ... or in an existing sub-directory (the layout of the repository's own ref/generated use case)
-		outArg = filepath.Dir(setup) + "/" + sim.Pick(r, []string{"zz_generated.go", "conv_gen.go", "logo.go", "sub/out.gen.go", "sub/generated.go"})
+		names := []string{"zz_generated.go", "conv_gen.go", "logo.go"}
+		if _, ok := world.Files[filepath.Dir(world.Setup)+"/sub/keep.txt"]; ok {
+			// only where the sub-directory exists in the world (and so in the twin's)
+			names = append(names, "sub/out.gen.go", "sub/generated.go")
+		}
+		outArg = filepath.Dir(setup) + "/" + sim.Pick(r, names)
 	}
 	mkInv := func() *Invocation {
 		form := sim.Pick(r, []string{"rel-pkgdir", "rel-pkgdir", "rel-pkgdir", "rel-modroot", "gofile", "abs"})
